@@ -15,6 +15,8 @@ import (
 
 	"verifharness/hxconn"
 	"verifharness/hxlib"
+
+	"qchen.fun/fatchoy/qnet"
 )
 
 type sc = hxconn.Scenario
@@ -210,12 +212,51 @@ func main() {
 	if r.Replay != "" {
 		var c replayCase
 		r.LoadReplay(&c)
-		if c.Listener != nil {
+		if c.Shared != nil {
+			runShared(r, *c.Shared)
+		} else if c.Listener != nil {
 			runListener(r, *c.Listener)
 		} else {
-			runOne(r, c.Scenario, false)
+			if c.Scenario.Peer.Tail == "stall" {
+				qnet.TConnReadTimeout = 1
+			}
+			// (a free-running scenario is not a function of its description alone: look again before giving up)
+			for k := 0; k < 5 && !r.Failed(); k++ {
+				runOne(r, c.Scenario, false)
+			}
 		}
 		return
+	}
+	if r.Search {
+		// failing-input search: schedules the ordinary scenarios do not produce (see hxconn/shared.go): a late or slow
+		// peer with the reader parked on an undrained inbound queue and a backlog at the graceful Close; a peer that
+		// stalls mid-frame beyond the read timeout; many more shared / unbuffered channel cases, racing closes of
+		// both kinds included
+		t0 := time.Now()
+		for k := 0; k < 120 && !r.Failed(); k++ {
+			s := hxconn.GenLatePeer(r.R)
+			if k%3 == 0 { // a forced close races the graceful one
+				s.Closers = append(s.Closers, hxconn.Closer{Graceful: false, When: pickS(r.R, "ccall", "rfull")})
+			}
+			runOne(r, s, false)
+			r.Count("search:late-peer")
+		}
+		old := qnet.TConnReadTimeout
+		qnet.TConnReadTimeout = 1
+		for k := 0; k < 4 && !r.Failed(); k++ {
+			runOne(r, hxconn.GenStall(r.R), false)
+			r.Count("search:stall")
+		}
+		qnet.TConnReadTimeout = old
+		for k := 0; k < 1500 && !r.Failed(); k++ {
+			runShared(r, hxconn.GenShared(r.R))
+			r.Count("search:shared")
+		}
+		r.Note("search legs took %.1f s: late-peer 120 runs (a third with a forced close racing the graceful one), stall 4 runs (peer stalls 1.4 s mid-frame, read timeout 1 s), shared 1500 runs (unbuffered / single-free-slot / full error and inbound channels shared by 1..4 connections terminating concurrently)", time.Since(t0).Seconds())
+		if r.Failed() {
+			r.Note("the search legs found a failing input; the ordinary generators were not run again")
+			return
+		}
 	}
 	// the Lean counter-examples of the unfixed tree first
 	fixed := []sc{
@@ -232,6 +273,18 @@ func main() {
 	}
 	for k := 0; k < r.Scale(24, 200); k++ {
 		runOne(r, genStuckReader(r.R), false)
+	}
+	// unbuffered / shared / nearly full error and inbound channels, connections terminating concurrently
+	for _, c := range []hxconn.SharedCase{
+		{Name: "unbuffered-waiting", Codec: 1, ECap: 0, EFree: 0, EWait: true, ICap: 1, How: []string{"close"}},
+		{Name: "unbuffered-waiting", Codec: 1, ECap: 0, EFree: 0, EWait: true, ICap: 1, IWait: true, Frames: 2, How: []string{"fin"}},
+		{Name: "shared", Codec: 1, ECap: 1, EFree: 1, ICap: 1, How: []string{"close", "close"}},
+		{Name: "shared", Codec: 2, ECap: 2, EFree: 1, ICap: 0, How: []string{"force", "fin", "close"}},
+	} {
+		runShared(r, c)
+	}
+	for k := 0; k < r.Scale(80, 600); k++ {
+		runShared(r, hxconn.GenShared(r.R))
 	}
 	for k := 0; k < r.Scale(24, 120); k++ {
 		runOne(r, genForced(r.R), false)
@@ -252,7 +305,36 @@ func main() {
 // replayCase: hx_c04 replays either a connection scenario or a listener scenario.
 type replayCase struct {
 	hxconn.Scenario
-	Listener *ListenerCase `json:"listener,omitempty"`
+	Listener *ListenerCase      `json:"listener,omitempty"`
+	Shared   *hxconn.SharedCase `json:"shared,omitempty"`
+}
+
+// runShared: channel capacities the single-connection scenarios do not vary (oracle only, see hxconn/shared.go).
+func runShared(r *hxlib.Run, c hxconn.SharedCase) {
+	if hxconn.GiveUp() && r.Replay == "" {
+		r.Count("skipped-after-confirmed-hangs")
+		return
+	}
+	r.Case()
+	fs, got := hxconn.RunSharedBelievably(c)
+	r.Count("family:" + c.Name)
+	r.CountN("shared:connections", len(c.How))
+	r.CountN("shared:terminal-errors-delivered", got)
+	if c.ECap == 0 && c.EWait {
+		r.Count("shared:unbuffered-error-channel-with-waiting-receiver")
+	}
+	if c.EFree == 1 && len(c.How) >= 2 && !c.EWait {
+		r.Count("shared:one-free-slot-for-2+-connections")
+	}
+	if c.ICap == 0 {
+		r.Count("shared:unbuffered-inbound")
+	}
+	if len(c.How) >= 2 {
+		r.NonTrivial(c.Describe())
+	}
+	for _, f := range fs {
+		r.Fail(f.Key, f.What, replayCase{Shared: &c})
+	}
 }
 
 func init() { _ = fmt.Sprint }
